@@ -313,5 +313,202 @@ theorem sub_floor_hasVal {s : Bool} {m : Nat} {e : Int} (hc : Canon (fin s m e))
   obtain ⟨sR, mR, eR, hR, -, hvR⟩ := this
   exact ⟨sR, mR, eR, hR, hvR⟩
 
+/-! ### the test `|f − floor f| < EPSILON` and `from_float` itself -/
+
+theorem epsilon_hasVal : HasVal epsilon ((pow2 (-52 - eMin) : Nat) : Int) eMin := by
+  unfold epsilon; rw [hasVal_fin]; decide +kernel
+
+theorem lt_fin_eq_ocmp (s1 : Bool) (m1 : Nat) (e1 : Int) (s2 : Bool) (m2 : Nat) (e2 : Int) :
+    F64.lt (fin s1 m1 e1) (fin s2 m2 e2) = (ocmp (fin s1 m1 e1) (fin s2 m2 e2) == .lt) := by
+  simp [F64.lt, pcmp, ocmp]
+
+/-- the fractional part is below `f64::EPSILON = 2^-52` -/
+def fracSmall (s : Bool) (m : Nat) (e : Int) : Bool :=
+  decide (fracNum s m e * pow2 (e - eMin) < pow2 (-52 - eMin))
+
+theorem frac_test {s : Bool} {m : Nat} {e : Int} (hc : Canon (fin s m e)) (he : e < 0)
+    (hk : fracNum s m e < two53) :
+    F64.lt (F64.abs (sub (fin s m e) (floor (fin s m e)))) epsilon = fracSmall s m e := by
+  obtain ⟨sR, mR, eR, hR, hvR⟩ := sub_floor_hasVal hc he hk
+  rw [hR]
+  have hnn : (0 : Int) ≤ (fracNum s m e : Nat) * (pow2 (e - eMin) : Nat) :=
+    Int.mul_nonneg (by omega) (by omega)
+  have hv := hasVal_abs hvR hnn
+  show F64.lt (fin false mR eR) (fin false two52 (-104)) = _
+  rw [lt_fin_eq_ocmp]
+  have := ocmp_of_hasVal hv epsilon_hasVal
+  unfold epsilon at this
+  rw [this, fracSmall, Bool.eq_iff_iff]
+  simp only [beq_iff_eq, decide_eq_true_eq]
+  rw [Int.compare_eq_lt, ← Int.natCast_mul, Int.ofNat_lt]
+
+theorem sub_self_fin (s : Bool) (m : Nat) (e : Int) :
+    sub (fin s m e) (fin s m e) = fin false 0 eMin := by
+  show add (fin s m e) (fin (!s) m e) = _
+  unfold add
+  simp only [Int.min_self, Int.sub_self, pow2_zero, smant_not]
+  have : smant s m * ((1 : Nat) : Int) + -smant s m * ((1 : Nat) : Int) = 0 := by omega
+  rw [this]
+  cases s <;> simp [roundInt]
+
+theorem zero_lt_epsilon : F64.lt (F64.abs (fin false 0 eMin)) epsilon = true := by decide +kernel
+
+/-- `from_float` on a double with non-negative exponent (an integer ≥ 2^52 in magnitude, or 0):
+always the saturating cast -/
+theorem fromFloat_of_nonneg_exp (s : Bool) (m : Nat) (e : Int) (he : 0 ≤ e) :
+    Value.fromFloat (fin s m e) = .int (toI64 (fin s m e)) := by
+  unfold Value.fromFloat
+  have : floor (fin s m e) = fin s m e := by simp only [floor]; rw [if_pos (by omega)]
+  rw [this, sub_self_fin, zero_lt_epsilon]; rfl
+
+/-- `from_float` on a canonical double with negative exponent whose fractional numerator fits
+53 bits (always when `f ≥ 0` or `|f| ≥ 2^-1`…): it returns the `Int` cast exactly when the
+fractional part is below 2^-52, the double itself otherwise -/
+theorem fromFloat_of_neg_exp {s : Bool} {m : Nat} {e : Int} (hc : Canon (fin s m e)) (he : e < 0)
+    (hk : fracNum s m e < two53) :
+    Value.fromFloat (fin s m e) =
+      if fracSmall s m e then .int (toI64 (fin s m e)) else .float (fin s m e) := by
+  unfold Value.fromFloat
+  rw [frac_test hc he hk]
+
+/-! ### the remaining case: `-1 < f < 0` so small that `1 - |f|` is not a double -/
+
+theorem le_divRoundEven (a b : Nat) : a / b ≤ divRoundEven a b := by
+  unfold divRoundEven
+  simp only
+  split
+  · exact Nat.le_refl _
+  · split
+    · omega
+    · split <;> omega
+
+/-- rounding a value in `[1/2, 1)` given with many bits: the result is still at least `1/2` -/
+theorem roundRat_ge_half (n j : Nat) (hj : 1 ≤ j) (h1 : 2 ^ (j + 52) ≤ n) (h2 : n < 2 ^ (j + 53)) :
+    ∃ m' e', roundRat false n 1 (-((j : Int) + 53)) = fin false m' e' ∧ two52 ≤ m' ∧ -53 ≤ e' := by
+  have hn : n ≠ 0 := by
+    have := Nat.two_pow_pos (j + 52); omega
+  have hlog : n.log2 = j + 52 := (Nat.log2_eq_iff hn).2 ⟨h1, h2⟩
+  have hlog1 : ((1 : Nat).log2 : Int) = 0 := by decide
+  rw [roundRat_eq false n 1 _ hn, hlog, hlog1]
+  have he0 : ((j + 52 : Nat) : Int) - 0 + -((j : Int) + 53) - 52 = -53 := by omega
+  rw [he0]
+  have hmant : mantAt n 1 (-((j : Int) + 53)) (-53) = (n, 2 ^ j) := by
+    unfold mantAt
+    rw [if_neg (by omega)]
+    have : -(-((j : Int) + 53) - -53) = (j : Int) := by omega
+    rw [this, pow2_natCast, Nat.one_mul]
+  have hq1 : two52 ≤ n / 2 ^ j := by
+    rw [Nat.le_div_iff_mul_le (Nat.two_pow_pos _), two52_eq, ← Nat.pow_add, Nat.add_comm]; exact h1
+  have hq2 : n / 2 ^ j < two53 := by
+    rw [Nat.div_lt_iff_lt_mul (Nat.two_pow_pos _), two53_eq, ← Nat.pow_add, Nat.add_comm]; exact h2
+  have hfix : fixExp n 1 (-((j : Int) + 53)) (-53) = -53 := by
+    rw [fixExp_eq, hmant]
+    simp only
+    rw [if_neg (by omega), if_neg (by omega)]
+  rw [hfix]
+  have hcl : clampMin (-53) = -53 := by decide
+  rw [hcl, finishAt_eq, hmant]
+  simp only
+  have hge := le_divRoundEven n (2 ^ j)
+  split
+  · rename_i hbig
+    rw [if_neg (by decide)]
+    refine ⟨_, _, rfl, ?_, by decide⟩
+    have : two53 = 2 * two52 := by decide
+    omega
+  · rw [if_neg (by decide)]
+    exact ⟨_, _, rfl, by omega, by decide⟩
+theorem negOne_round : roundInt (-1) 0 true = fin true two52 (-52) := by decide
+
+theorem fromFloat_neg_tiny {m : Nat} {e : Int} (hc : Canon (fin true m e)) (he : e < 0)
+    (hk : two53 ≤ fracNum true m e) :
+    Value.fromFloat (fin true m e) = .float (fin true m e) := by
+  rw [canon_fin] at hc
+  have hlt := fracNum_lt true m e
+  -- the exponent is below -53
+  have he53 : e < -53 := by
+    apply Int.lt_of_not_ge
+    intro hge
+    have : pow2 (-e) ≤ pow2 53 := pow2_le_pow2 (by omega)
+    have h53 : pow2 53 = two53 := by decide
+    omega
+  obtain ⟨j, hj⟩ : ∃ j : Nat, -e = (j : Int) + 53 := ⟨(-e - 53).toNat, by omega⟩
+  have hj1 : 1 ≤ j := by omega
+  have hd : pow2 (-e) = 2 ^ (j + 53) := by
+    have : (j : Int) + 53 = ((j + 53 : Nat) : Int) := by omega
+    rw [hj, this, pow2_natCast]
+  have h53le : two53 ≤ 2 ^ (j + 52) := by
+    rw [two53_eq]; exact Nat.pow_le_pow_right (by decide) (by omega)
+  have hdd : 2 ^ (j + 53) = 2 * 2 ^ (j + 52) := by
+    rw [show j + 53 = (j + 52) + 1 from rfl, Nat.pow_succ, Nat.mul_comm]
+  have hmd : m % pow2 (-e) = m := Nat.mod_eq_of_lt (by omega)
+  have hm0 : m ≠ 0 := by
+    intro h0
+    have : fracNum true m e = 0 := (fracNum_eq_zero_iff true m e).2 (by rw [h0]; simp)
+    have : 0 < two53 := by decide
+    omega
+  have hfn : fracNum true m e = pow2 (-e) - m := by
+    unfold fracNum
+    simp only [if_true]
+    rw [hmd, Nat.mod_eq_of_lt (by omega)]
+  -- floor f = -1
+  have hfloorInt : floorInt true m e = -1 := by
+    unfold floorInt
+    rw [if_neg (by omega)]
+    simp only [if_true]
+    rw [ceilDiv_cases m _ (pow2_pos _), hmd, if_neg hm0, Nat.div_eq_of_lt (by omega)]
+    rfl
+  have hfl : floor (fin true m e) = roundInt (floorInt true m e) 0 true := by
+    simp only [floor]; rw [if_neg (by omega)]
+  have hfloor : floor (fin true m e) = fin true two52 (-52) := by
+    rw [hfl, hfloorInt, negOne_round]
+  -- f - floor f = round (2^-e - m) · 2^e
+  have hsub : sub (fin true m e) (fin true two52 (-52)) =
+      roundRat false (pow2 (-e) - m) 1 (-((j : Int) + 53)) := by
+    simp only [sub, neg, Bool.not_true]
+    unfold add
+    have hmin : min e (-52) = e := by omega
+    simp only [hmin, Int.sub_self, pow2_zero, smant_true, smant_false]
+    have hp : two52 * pow2 (-52 - e) = pow2 (-e) := by
+      have : pow2 52 = two52 := by decide
+      rw [← this, ← pow2_add (a := 52) (b := -52 - e) (by decide) (by omega)]; congr 1; omega
+    have hk' : -(m : Int) * ((1 : Nat) : Int) + (two52 : Int) * ((pow2 (-52 - e) : Nat) : Int) =
+        ((pow2 (-e) - m : Nat) : Int) := by
+      have hp' : (two52 : Int) * ((pow2 (-52 - e) : Nat) : Int) = ((pow2 (-e) : Nat) : Int) := by
+        rw [← Int.natCast_mul, hp]
+      have hmd' : m < pow2 (-e) := by omega
+      rw [hp']
+      generalize pow2 (-e) = d at *
+      omega
+    rw [hk']
+    unfold roundInt
+    have hne : ((pow2 (-e) - m : Nat) : Int) ≠ 0 := by omega
+    rw [if_neg hne]
+    have hneg : decide (((pow2 (-e) - m : Nat) : Int) < 0) = false := by
+      simp only [decide_eq_false_iff_not]; omega
+    have he' : e = -((j : Int) + 53) := by omega
+    rw [hneg, Int.natAbs_natCast, ← he']
+  obtain ⟨m', e', hR, hm', he'⟩ := roundRat_ge_half (pow2 (-e) - m) j hj1
+    (by rw [hd]; omega) (by rw [hd]; omega)
+  unfold Value.fromFloat
+  rw [hfloor, hsub, hR]
+  have hlt : F64.lt (F64.abs (fin false m' e')) epsilon = false := by
+    show F64.lt (fin false m' e') (fin false two52 (-104)) = false
+    rw [lt_fin_eq_ocmp, ocmp_fin, cmpFin_scale _ _ _ _ _ _ (-104) (by omega) (by omega)]
+    unfold scaled
+    simp only [smant_false, Int.sub_self, pow2_zero]
+    have : (two52 : Int) * ((1 : Nat) : Int) ≤ (m' : Int) * ((pow2 (e' - -104) : Nat) : Int) := by
+      have h1 : (1 : Int) ≤ ((pow2 (e' - -104) : Nat) : Int) := by
+        have := pow2_pos (e' - -104); omega
+      have h2 : (two52 : Int) ≤ (m' : Int) := by omega
+      calc (two52 : Int) * ((1 : Nat) : Int) = (two52 : Int) * 1 := by simp
+        _ ≤ (m' : Int) * ((pow2 (e' - -104) : Nat) : Int) :=
+            Int.mul_le_mul h2 h1 (by decide) (by omega)
+    rw [beq_eq_false_iff_ne]
+    intro hcmp
+    rw [Int.compare_eq_lt] at hcmp
+    omega
+  rw [hlt]; rfl
+
 end F64
 end Ag
